@@ -605,7 +605,15 @@ def register(M):
     def join(ev, fr, prog, fty, args, cx):
         return mk("join", deref_arg(ev, args[0]), deref_arg(ev, args[1]))
 
-    @reg("std::slice::<impl [T]>::sort")
+    @reg("std::vec::Vec::<T, A>::dedup")
+    def vec_dedup(ev, fr, prog, fty, args, cx):
+        # removes *consecutive* repeats: on a sorted list that is the set of values in order, on any other list the
+        # result depends on the order (the rule packs look at what it is applied to)
+        pl = place_of_ref(args[0])
+        ev.write(pl, mk("dedup_consecutive", ev.read(pl)))
+        return tm.UNIT
+
+    @reg("std::slice::<impl [T]>::sort", "std::slice::<impl [T]>::sort_unstable")
     def sort(ev, fr, prog, fty, args, cx):
         pl = place_of_ref(args[0])
         ev.write(pl, mk("sorted", ev.read(pl)))
